@@ -408,7 +408,7 @@ CLIENT_MUT = ["none", "none", "status-200", "status-400", "status-garbage", "htt
 def client_side(col, seed, n):
     from hypothesis import strategies as st
     strat = st.fixed_dictionaries({
-        "mut": st.sampled_from(CLIENT_MUT), "protocols": st.sampled_from([[], ["wamp.2.json"], ["a", "b"]]), "offer_deflate": st.booleans(),
+        "mut": st.sampled_from(CLIENT_MUT), "protocols": st.sampled_from([[], ["wamp.2.json"], ["a", "b"], ["wamp.2.json", "wamp.2.msgpack"]]), "offer_deflate": st.booleans(), "seed": st.integers(0, 63),
         "pick": st.integers(0, 3), "split": st.sampled_from(["one", "bytes", "two"]), "with_frame": st.booleans(), "version": st.sampled_from([18, 13, 10, 12]),
         "url": st.sampled_from(["ws://localhost:9000", "ws://example.com/chat?x=1", "ws://[::1]:8080/p"])})
 
@@ -487,7 +487,13 @@ def run_client_case(c, split):
         if c["protocols"] and c["pick"] < len(c["protocols"]):
             sent_proto = c["protocols"][c["pick"]]
         if mut == "subprotocol-not-requested":
-            sent_proto = "evil.proto"
+            # a name the client did not request: unrelated, or *adjacent* to the requested ones (prefix, suffix, substring, the joined list, other case, padded)
+            req = c["protocols"]
+            near = ["evil.proto"]
+            if req:
+                near += [req[0][:-1] or "x", req[0] + "x", req[0][1:] or "y", ",".join(req), ", ".join(req), req[0].upper() if req[0].upper() != req[0] else req[0].lower() + "_", req[0].split(".")[0] + "."]
+            near = [x for x in near if x and x not in req and x.strip() not in req]
+            sent_proto = near[c.get("seed", c.get("pick", 0)) % len(near)] if near else "evil.proto"
         if sent_proto:
             H.append("Sec-WebSocket-Protocol: " + sent_proto)
         if mut == "dup-subprotocol-header":
